@@ -100,7 +100,7 @@ class AffineTransform(Transform):
         Raises:
             ValueError: Scale needs to be larger than 0
         """
-        if jnp.allclose(scale, 0):
+        if jnp.any(jnp.asarray(scale) == 0):
             raise ValueError("a cannot be zero, must be invertible")
         self.a = scale
         self.b = shift
